@@ -762,6 +762,48 @@ def paths_worker(job):
                             acc.violation('keys:read-path:%s-passphrase-%s:%s:%s:%s' % (pwname, outcome, form, entry, side),
                                           '%s with the %s passphrase: %s (%s)' % (label, pwname, outcome, detail),
                                           {'kind': 'paths', 'alg': alg, 'label': label})
+    # several keys handed over in one call: every pair signs with its own private key, whatever came before it in
+    # the list (an encrypted file decrypted on first use, a plain file, key bytes, a key object)
+    other = P.key('c15-second', alg, **kw)
+    d = os.path.join(root, 'several')
+    os.makedirs(d)
+    pa, pb = os.path.join(d, 'id_a'), os.path.join(d, 'id_b')
+    with open(pa, 'wb') as f:
+        f.write(key.export_private_key('pkcs8-pem', passphrase='right'))
+    key.write_public_key(pa + '.pub')
+    with open(pb, 'wb') as f:
+        f.write(other.export_private_key('pkcs8-pem'))
+    asked = []
+
+    def pwcb(fn):
+        asked.append(os.path.basename(fn))
+        return 'right'
+    forms_b = [('path', pb), ('bytes', other.export_private_key('pkcs8-pem')), ('object', other), ('path+pub', (pb, other.export_public_key()))]
+    for order in ('enc-first', 'enc-last', 'enc-between'):
+        for fname, second in forms_b:
+            lst = {'enc-first': [pa, second], 'enc-last': [second, pa], 'enc-between': [second, pa, second]}[order]
+            owners = {'enc-first': [key, other], 'enc-last': [other, key], 'enc-between': [other, key, other]}[order]
+            label = '%s/several/%s/%s' % (alg, order, fname)
+            del asked[:]
+            problems = []
+            try:
+                kps = asyncssh.load_keypairs(lst, pwcb)
+                if len(kps) != len(lst):
+                    problems.append('%d pairs for %d keys' % (len(kps), len(lst)))
+                for i, (kp, owner) in enumerate(zip(kps, owners)):
+                    if kp.key_public_data != owner.public_data:
+                        problems.append('pair %d has another public half' % i)
+                        continue
+                    sig = kp.sign(b'msg')
+                    if not owner.convert_to_public().verify(b'msg', sig):
+                        problems.append('the signature of pair %d does not verify under its own public key' % i)
+                if asked.count('id_a') > 1:
+                    problems.append('passphrase for id_a requested %d times' % asked.count('id_a'))
+            except Exception as exc:        # pylint: disable=broad-except
+                problems.append('raised %r' % (exc,))
+            acc.add(core.digest((label, tuple(problems))), transitions=len(lst))
+            for pr in problems:
+                acc.violation('keys:read-path:several-keys:%s:%s' % (order, fname), '%s: %s' % (label, pr), {'kind': 'paths', 'alg': alg, 'label': label})
     loop.close()
     shutil.rmtree(root, ignore_errors=True)
     return acc
